@@ -91,6 +91,11 @@ def gen_bn_history(rng, tier):
                 extra = [x for x in range(NVARS) if x not in W["nodes"]]
                 if extra:
                     ps = ps + [rng.choice(extra)]
+            elif rng.random() < .15:
+                # a CPD conditioned on a node that is not (yet) a graph parent: add_cpds accepts any scope inside the node set
+                extra = [x for x in sorted(W["nodes"]) if x != v and x not in ps]
+                if extra:
+                    ps = ps + [rng.choice(extra)]
             rng.shuffle(ps)
             ncols = 1
             for p in ps:
@@ -284,8 +289,13 @@ def run_dagctor(case, drv):
 
 # ----------------------------------------------------------------------------- DBN / JunctionTree / MarkovNetwork
 def gen_other(rng, tier):
-    kind = rng.choice(["dbn", "jt", "mn"])
+    kind = rng.choice(["dbn", "jt", "jt", "mn"])
     ops = []
+    import itertools
+    allc = [list(c) for k in (2, 3) for c in itertools.combinations("ABCDE", k)]
+    pool = rng.sample(allc, rng.randint(3, 7))          # a small pool of overlapping cliques: edges among them soon close cycles
+    if kind == "jt" and rng.random() < .5:
+        ops.append(["nodes", pool])                      # add_nodes_from first: the tree stays a forest with several components
     for _ in range(rng.randint(5, 20)):
         if kind == "dbn":
             a, b = rng.choice("ABCD"), rng.choice("ABCD")
@@ -294,6 +304,8 @@ def gen_other(rng, tier):
             ops.append(rng.choice([["edge", [a, ta], [b, tb]], ["edge", [a, ta], [b, tb]], ["node", a], ["copy"]]))
         elif kind == "jt":
             cl = [sorted(rng.sample("ABCDE", rng.randint(1, 3))) for _ in range(2)]
+            if rng.random() < .75:
+                cl = [sorted(c) for c in rng.sample(pool, 2)]
             ops.append(rng.choice([["edge", cl[0], cl[1]], ["edge", cl[0], cl[1]], ["edge", cl[0], cl[0]], ["node", cl[0]], ["copy"]]))
         else:
             a, b = rng.choice("ABCD"), rng.choice("ABCD")
@@ -324,6 +336,8 @@ def run_other(case, drv):
                     m.add_edge(tuple(op[1]), tuple(op[2]))
                 else:
                     m.add_edge(op[1], op[2])
+            elif op[0] == "nodes":
+                m.add_nodes_from([tuple(sorted(c)) for c in op[1]])
             elif op[0] == "node":
                 m.add_node(tuple(op[1]) if kind == "jt" else op[1])
             elif op[0] == "factor":
